@@ -139,6 +139,10 @@ def install(ctx):
 
 
 def gen_case(rng, tier, ctx, i):
+    if rng.random() < 0.15:
+        from . import c04
+        ctx.count("count:bounded-sweep-formulas")        # the deterministic enumeration of small formulas shared with C04
+        return {"recipe": recipes.strip(c04.next_sweep(i, ctx.seed)), "via": rng.choice(["negate", "Not", "double"])}
     o = common.varied_opts(rng, tier)
     r = rng.random()
     if r < 0.35:
